@@ -67,11 +67,17 @@ fn string_alphabet<V: Variant>() -> Vec<String> {
     out.push(format!(" {good}"));
     out.push(format!("{good}\n"));
     out.push(format!("{}\t", &good[2..]));
+    // length codes that only the lenient parser accepts (>= 170): the helper must still add the length distance
+    for code in [0xaau8, 0xff] {
+        let mut t = base.clone();
+        t[V::CK] = code;
+        out.push(text(&t, code == 0xaa));
+    }
     out
 }
 
 /// Number of strings in the alphabet (the transcripts index it).
-pub const STRING_ALPHABET_LEN: usize = 38;
+pub const STRING_ALPHABET_LEN: usize = 40;
 
 pub fn judge_strings<V: Variant>(l: &str, r: &str) -> Result<u64, String> {
     let real = catch(|| V::compare_with(l, r)).map_err(|p| format!("compare_with({l:?}, {r:?}) panicked: {p}"))?;
